@@ -2177,7 +2177,7 @@ def _lt(token: TokenT, left: object, right: object) -> bool:
 
 def _contains(token: TokenT, left: object, right: object) -> bool:
     if isinstance(left, str):
-        return str(right) in left
+        return _safe_str(right) in left
     if isinstance(left, Collection):
         try:
             return right in left
